@@ -627,3 +627,36 @@ func init() {
 		return r
 	})
 }
+
+func init() {
+	b64 := func(c *ExtCtx) string {
+		t := c.args[0].T + " " + c.args[0].OriginRef
+		switch {
+		case strings.Contains(t, "RawURLEncoding"):
+			return "b64rawurl"
+		case strings.Contains(t, "URLEncoding"):
+			return "b64url"
+		case strings.Contains(t, "RawStdEncoding"):
+			return "b64rawstd"
+		case strings.Contains(t, "StdEncoding"):
+			return "b64std"
+		}
+		return "b64unknown"
+	}
+	ext("(*encoding/base64.Encoding).EncodeToString", "base64 EncodeToString: enc_E(bytes), one uninterpreted function per encoding E; dec_E(enc_E(b)) == b", func(c *ExtCtx) Val {
+		e := b64(c)
+		if e != "b64url" && e != "b64std" {
+			return c.fresh(0, "b64enc")
+		}
+		return c.mk(0, "("+e+"_enc (bytes2str "+c.args[1].T+"))")
+	})
+	ext("(*encoding/base64.Encoding).DecodeString", "base64 DecodeString: (dec_E(s), nil) iff ok_E(s)", func(c *ExtCtx) Val {
+		e := b64(c)
+		if e != "b64url" && e != "b64std" {
+			return c.tuple(c.fresh(0, "b64dec"), c.fresh(1, "b64err"))
+		}
+		er := c.fresh(1, "b64err")
+		c.st.assume("(= (= " + er.T + " 0) (" + e + "_ok " + c.args[1].T + "))")
+		return c.tuple(c.mk(0, "(str2bytes ("+e+"_dec "+c.args[1].T+"))"), er)
+	})
+}
